@@ -29,9 +29,10 @@ C02_MODELS = {'scalars', 'collections', 'plain', 'extra', 'dashed',
               'treex', 'index', 'savopt', 'underhier', 'floatint'}
 C03_MODELS = {'hier', 'discrim', 'ambig', 'enum_str', 'plain', 'multi',
               'chain', 'absmix', 'mixin', 'inhrec', 'samename', 'absmid',
-              'extradef', 'tree', 'underhier'}
+              'extradef', 'tree', 'underhier', 'diamond', 'absonly'}
 C10_MODELS = {'hooks', 'dashed_sav', 'adversarial', 'parsed', 'mixin', 'multi',
-              'samename', 'inhrec', 'index', 'savopt', 'savnest', 'enumsav'}
+              'samename', 'inhrec', 'index', 'savopt', 'savnest', 'enumsav',
+              'diamond'}
 C17_STRONG = {'plain', 'extra', 'dashed_sav', 'enum_str', 'collections',
               'scalars'}
 C17_STRONG_LOAD = {'tree', 'savopt'}
@@ -1183,6 +1184,10 @@ SEASON_SEEDS = [
     'items: abc\n',
     'items: []\n',
     'items: {}\n',
+    # for the hook that reads scalar values (family readval)
+    'x: !!int abc\n', 'x: 0x_\n', 'x: 1\nf: !!float ""\n',
+    'x: !!bool maybe\n', 'x: !!int ""\n', 'x: 1\nf: !!float x.y\n',
+    '[1]\n', '~\n', '- ~\n- 1\n- a\n',
 ]
 
 
@@ -1205,7 +1210,7 @@ def c08_fuzz(V, tier):
     combos = []
     for mid in ('scalars', 'collections', 'plain', 'extra', 'enum_str',
                 'hier', 'adversarial', 'parsed', 'raising', 'dashed_sav',
-                'season', 'index'):
+                'season', 'index', 'readval'):
         dts = ctx['models'][mid]['doctypes']
         combos += [(mid, dt) for dt in dts[:3]]
     chunks = [(c, combos) for c in chunked(texts, NCPU * 2)]
